@@ -52,30 +52,30 @@ def conditions():
 
 
 def work(job):
-    wi, cond = job
+    wi, cond, share = job
     domains = G.worlds()[wi]
     sel = tuple(("var", v) for v in sorted(G.free_vars(cond)))
-    env = G.Env(domains)
+    env = G.Env(domains, share_attrs=share)
     st, got = guarded(lambda: G.run_query(env, sel, cond))
     want = G.oracle_rows(sel, cond, domains)
     # the(): succeeds iff exactly one satisfying assignment
-    env2 = G.Env(domains)
+    env2 = G.Env(domains, share_attrs=share)
     q, kind = env2.query(sel, cond)
     from krrood.entity_query_language.symbolic import The
     tq = The(q._child_)
     st_the, r_the = guarded(lambda: tq.evaluate())
     the_outcome = "ok" if st_the == "ok" else type(r_the).__name__
-    return wi, cond, sel, st, (repr(got) if st == "exc" else got), want, the_outcome
+    return wi, cond, sel, share, st, (repr(got) if st == "exc" else got), want, the_outcome
 
 
-jobs = [(wi, c) for wi in range(4) for c in conditions()]
+jobs = [(wi, c, share) for wi in range(4) for c in conditions() for share in ((False, True) if c[0] in ("and", "or") else (False,))]
 import zlib
 jobs = [j for j in jobs if a.tier == "thorough" or zlib.crc32(repr(j).encode()) % 3 == (a.seed % 3)]
 with multiprocessing.get_context("fork").Pool(16) as pool:
-    for wi, cond, sel, st, got, want, the_outcome in pool.imap_unordered(work, jobs, chunksize=32):
-        shape = G.shape_signature(cond)
-        rep.case((wi, repr(cond)), nontrivial=bool(want), sample={"world": wi, "condition": repr(cond)})
-        inp = {"world": wi, "condition": cond, "selected": sel}
+    for wi, cond, sel, share, st, got, want, the_outcome in pool.imap_unordered(work, jobs, chunksize=32):
+        shape = G.shape_signature(cond) + ("#shared-attribute-nodes" if share else "")
+        rep.case((wi, repr(cond), share), nontrivial=bool(want), sample={"world": wi, "condition": repr(cond)})
+        inp = {"world": wi, "condition": cond, "selected": sel, "shared_attribute_nodes": share}
         if st == "exc":
             rep.fail(f"raised::{shape}", f"world {wi} cond {cond!r}: {got}", inp)
             continue
